@@ -6,6 +6,6 @@ cd /verif
 git -C /repo apply /verif/seeded/$id/patch.diff || { echo "patch does not apply"; exit 2; }
 for p in $props; do
   echo "--- seed $id / check $p"
-  ./check $p --tier quick 2>&1 | grep -v conda | grep -E "VIOLATION|KNOWN|OK property|^#" | cut -c1-400
+  VERIF_DEV_EVIDENCE=1 ./check $p --tier quick 2>&1 | grep -v conda | grep -E "VIOLATION|KNOWN|OK property|^#" | cut -c1-400
 done
 git -C /repo checkout -- .
